@@ -93,6 +93,9 @@ pub fn spec(prop: &str) -> Option<PropSpec> {
         "C10" => s("C10", "fault_enumeration", 20000, 300000, &["enum.damage_cases"], &["probe.damage_open_ok"],
             "per generated history, on the richest store: for EVERY item bit flips at first/last/8 seeded positions (thorough: every byte), truncation to 0/1/mid/len-1 (thorough: every length), deletion, all pairs of deletions (thorough: triples), and a fixed list of junk-file classes; at rest then open, and in transit then refresh; non-trivial = a history whose damage cases were enumerated and at least one damaged store opened; distinct = distinct op sequence hash",
             &["enum.damage_cases", "enum.damage_cases_in_transit", "probe.damage_open_ok", "probe.damage_open_err", "probe.damage_value_checked", "fault.damage_bitflip", "fault.damage_truncate", "fault.damage_delete", "fault.damage_junk"]),
+        "C17" => s("C17", "exploration", 6000, 90000, &["probe.backend_calls"], &["contract.write"],
+            "run k uses backend k mod 12 of {memory, directory, SQLite file, SQLite in-memory} x {plain, Deflate, Brotli}: (1) a replica history over SimAdapter with the real backend behind it, every read/list answered by the backend and compared with the first-write-wins model, persistent backends re-constructed on restart; (2) a seeded write/read/ranged-read/list/reopen sequence with arbitrary bytes against the same model; non-trivial = both parts ran; distinct = distinct op sequence hash",
+            &["contract.write", "contract.second_write", "contract.read_range", "contract.list", "contract.read_missing", "fault.backend_reopen", "probe.backend_calls", "probe.backend.dir", "probe.backend.sqlite", "probe.backend.sqlite+brotli", "probe.backend.memory+flate"]),
         "C18" => s("C18", "exploration", 6000, 90000, &["enum.config_variants"], &[],
             "per generated history the same op file is re-executed under >= 4 other hash seeds, 3 listing permutations, 3 parallel-loop orders, a seeded half of the 4x4 cache-capacity grid and one all-varied configuration; semantic digests of all replicas compared after every op; non-trivial = a history whose matrix was executed; distinct = distinct op sequence hash",
             &["enum.config_variants", "fault.config_hash", "fault.config_listing", "fault.config_parallel-loop", "fault.config_cache", "probe.conflict_at_sync"]),
@@ -230,6 +233,7 @@ pub fn cmd_worker(args: &[String]) -> i32 {
         "wall_ms": t0.elapsed().as_millis() as u64,
     });
     std::fs::write(&out, serde_json::to_string(&res).unwrap()).expect("cannot write worker result");
+    let _ = std::fs::remove_dir_all(crate::backends::scratch_root());
     0
 }
 
@@ -312,6 +316,7 @@ pub fn cmd_check(args: &[String]) -> i32 {
         violations.extend(v["violations"].as_array().unwrap().iter().cloned());
     }
     let _ = std::fs::remove_dir_all(&work);
+    let _ = std::fs::remove_dir_all(crate::backends::scratch_root());
     // regression corpus: replay files of repaired defects of this property must stay clean
     let mut regress_run = 0u64;
     if let Ok(rd) = std::fs::read_dir(format!("{}/regress", verif_home())) {
